@@ -56,6 +56,22 @@ func checkC43(r *ev.Run) {
 				c.B.Empty(30)
 			}
 		}
+		// pending claims at the export height: every genesis node claims the last finished session of an application the
+		// generator never touches (those in the session are accepted); the claims are neither proved nor expired when the
+		// state is exported
+		claimApp := chain.KeyApp0 + 60
+		c.B.Gen.Apps = append(c.B.Gen.Apps, chain.GenApp{Key: claimApp, Stake: 6_000_000_000, Chains: []string{"0001", "0021"}})
+		c.B.Gen.MaxApplications++
+		bps := c.B.Gen.BlocksPerSession
+		last := c.B.H - 1
+		sbh := ((last-bps)/bps)*bps + 1
+		blk := c.B.Begin(30)
+		for k := 0; k < 8 && si%4 >= 2; k++ { // half of the histories of each family
+			set := chain.RelaySet{App: claimApp, Client: chain.KeyFresh0 + 90, Servicer: chain.KeyNode0 + k, Chain: "0001", SBH: sbh, N: 6 + k, Seed: int64(si*100 + k)}
+			blk.Txs = append(blk.Txs, chain.DynTx{Kind: "claim", Set: set, Entropy: int64(770000 + si*100 + k)}.Encode())
+		}
+		c.B.End()
+		c.B.Empty(30)
 		sc := c.B.Script("full")
 		sc.Steps = append(sc.Steps, chain.Step{Op: "export"})
 		a, err := chain.RunChild(chain.SelfBin(), sc, nil, childTimeout)
@@ -116,6 +132,8 @@ func checkC43(r *ev.Run) {
 				reason = "importer-exited/pool-balance-ne-staked-sum"
 			case strings.Contains(low, "invalid acl") && strings.Contains(low, "not a recognized parameter"):
 				reason = "importer-exited/acl-lists-parameter-of-inactive-feature"
+			case strings.Contains(low, "expiration height included in the claim message is invalid"):
+				reason = "importer-exited/pending-claim-refused"
 			case strings.Contains(low, "genesis validator cannot have zero stake"):
 				reason = "importer-exited/zero-stake-validator-refused"
 			case strings.Contains(low, "the applications must be staked at genesis"):
